@@ -88,6 +88,7 @@ fn check_eval(spec: &TlSpec, rt: &RefTl, tl: &PTimeline, start: Option<&P>, t: f
                 let mut c = case_json(spec, start, t, init);
                 c["got"] = got.to_json();
                 c["reference"] = json!(format!("{want:?}"));
+                c["unit_test"] = json!(timeline_unit_test(spec, start, t, init, &asserts_for(&want, rt, start)));
                 c
             })
         });
